@@ -307,7 +307,7 @@ fn odd_content(t: &mut crate::supply::SupplyTrace, r: &mut Rng) -> String {
         }
         1 | 2 => {
             // validly signed link with non-normalized paths in materials and products
-            let paths = ["x/../y", "./a", "a//b", "/abs/p", "../up", "a/./b", "", ".", "a/", "é/ü"];
+            let paths = ["x/../y", "./a", "a//b", "/abs/p", "../up", "a/./b", "", ".", "a/", "é/ü", "dist/.", "src/./.", "/.", "..", "a/..", "./", "//", "a/../..", "hello.", "...", "a/.../b"];
             let mut any = false;
             for f in t.root.files.iter_mut() {
                 if let Body::Link(l) = &mut f.body {
@@ -351,7 +351,7 @@ fn odd_content(t: &mut crate::supply::SupplyTrace, r: &mut Rng) -> String {
             "ODD-STEPNAME".into()
         }
         5 => {
-            let pats = ["[", "**a", "", "\\", "a**", "[!", "[]", "***", "[z-a]", "é*"];
+            let pats = ["[", "**a", "", "\\", "a**", "[!", "[]", "***", "[z-a]", "é*", "ÿ*", "out/文*", "リリース/ビルド?.zip", "\u{100}[ab]", "\u{10ffff}*", "x\u{ff}?", "*\u{0}", "a/\u{7f}*"];
             let si = r.idx(t.root.layout.steps.len().max(1));
             if let Some(s) = t.root.layout.steps.get_mut(si) {
                 let kind = *r.pick(&["ALLOW", "DISALLOW", "REQUIRE", "CREATE", "DELETE", "MODIFY"]);
